@@ -60,7 +60,9 @@ def gen_seedsum():
             f"stood; {c('caught-by-other')} by the check of a neighbouring property (and, after strengthening, also by their own where that is "
             f"the right place); {c('inconclusive-first')} made its check end INCONCLUSIVE (a harness object without a logger panicked in "
             f"the native replay - corrected, then caught); {c('missed-first')} were **missed at first** - each miss led to a strengthening "
-            f"of the check or of the engine's models (never to a loosening), after which it is caught:")
+            f"of the check or of the engine's models (never to a loosening), after which it is caught"
+            + (f"; {c('missed')} is **not caught**: it lies in code the check of its property declares outside its claim (see its row)" if c('missed') else "")
+            + ":")
 def gen_seeds():
     out=["| seed | breaks | the change | needs, to show up | result |","|---|---|---|---|---|"]
     for p in sorted(glob.glob(f'{V}/seeded/*/meta.json')):
